@@ -19,6 +19,8 @@ pub struct LoopState {
     pub proc_offset: usize,
     pub read_offset: usize,
     pub res_len: usize,
+    /// an over-long message is being discarded up to its terminator
+    pub discarding: bool,
 }
 
 pub struct Transport<'a> {
@@ -154,7 +156,7 @@ impl Adapter for Transport<'_> {
     }
 
     #[cfg(microscpi_verif)]
-    fn verif_loop_state(&mut self, kept: &[u8], proc_offset: usize, read_offset: usize, res_len: usize) {
+    fn verif_loop_state(&mut self, kept: &[u8], proc_offset: usize, read_offset: usize, res_len: usize, discarding: bool) {
         self.hook_calls += 1;
         if !(proc_offset <= read_offset && read_offset <= self.cap_n) {
             self.hook_bad_offsets += 1;
@@ -168,6 +170,7 @@ impl Adapter for Transport<'_> {
             self.last_state.proc_offset = proc_offset;
             self.last_state.read_offset = read_offset;
             self.last_state.res_len = res_len;
+            self.last_state.discarding = discarding;
         }
     }
 }
